@@ -85,7 +85,7 @@ def tag_link(link, kind, l0, f0, axis=None, origin=None):
     return link
 
 
-def rotation_scenario(rng: random.Random):
+def rotation_scenario(rng: random.Random, force=(None, None)):
     """2x2x2 lofts; the four edge-middle points of the bottom face are turned about the vertical axis through the face centre;
     one of them carries a RadialClamp, the opposite one (and sometimes the other two) follow through RotationLinks"""
     import classy_blocks as cb
@@ -106,12 +106,14 @@ def rotation_scenario(rng: random.Random):
                 pts = [grid[(i + c[0], j + c[1], k + c[2])] for c in hexref.XYZ]
                 mesh.add(cb.Loft(cb.Face(pts[:4]), cb.Face(pts[4:])))
     mesh.assemble()
-    axis = vmul(ez, rng.choice([rng.uniform(0.3, 0.8), rng.uniform(1.2, 2.5)]) / vnorm(ez))      # non-unit: shorter or longer than 1
+    lengths = [rng.uniform(0.3, 0.8), rng.uniform(1.2, 2.5)]
+    # non-unit: shorter or longer than 1 (force = (bounded, short): the runs with the real minimiser are not left to chance)
+    axis = vmul(ez, (rng.choice(lengths) if force[1] is None else lengths[0 if force[1] else 1]) / vnorm(ez))
     radius = vdist(grid[ring[0]], centre)
     start = list(grid[ring[0]])
     # half of the runs bound the travel along the circle (arc length from where the clamp was created) to less than the
     # way back to the untwisted position: the vertex ends against the bound, not beyond it
-    bound = 0.4 * abs(twist) * radius if rng.random() < 0.5 else None
+    bound = 0.4 * abs(twist) * radius if (rng.random() < 0.5 if force[0] is None else force[0]) else None
     clamps = [cb.RadialClamp(grid[ring[0]], centre, axis, [-bound, bound] if bound else None)]
 
     def on_circle(p, prm):
@@ -242,7 +244,7 @@ def run_one(ctx: Ctx, rid: int, rng: random.Random, kind: str, mode: str, full: 
     from classy_blocks.optimize import optimizer as optmod
 
     if kind == "mesh":
-        obj, clamps, links, preds, scale = rotation_scenario(rng) if rotation else mesh_scenario(rng, full)
+        obj, clamps, links, preds, scale = rotation_scenario(rng, rotation if isinstance(rotation, tuple) else (None, None)) if rotation else mesh_scenario(rng, full)
         opt = cb.MeshOptimizer(obj, report=False)
     else:
         obj, clamps, links, preds, scale = sketch_scenario(rng)
@@ -430,7 +432,9 @@ def run(ctx: Ctx) -> None:
         kind = "mesh" if i % 2 == 0 else "sketch"
         mode = ["real", "scripted-random", "scripted-worse", "scripted-degenerate"][(i // 2) % 4]
         # the second round of the four modes uses the rotation scenario (RadialClamp + RotationLinks) for its mesh runs
-        rec = run_one(ctx, len(recs) + 1, rng, kind, mode, full=i < 8, rotation=8 <= i < 16 or i % 5 == 4)
+        # (the two rotation runs with the real minimiser: travel bounded, axis shorter / longer than 1)
+        rotation = {8: (True, True), 16: (True, False)}.get(i, 8 <= i < 16 or i % 5 == 4)
+        rec = run_one(ctx, len(recs) + 1, rng, kind, mode, full=i < 8, rotation=rotation)
         if rec is not None:
             recs.append(rec)
     if not recs:
